@@ -73,9 +73,10 @@ def histories(rng, tier):
                 if rng.random() < 0.3:
                     rhs = 'const=%s' % rng.choice('TF')
                 else:
-                    rhs = 'rhs=%s' % rng.choice(names[1:] + ['a'])
-                h += ['nvalid x', 'bop x op=%s %s inplace=1' % (op, rhs), 'nvalid x',
-                      'bop y op=%s %s r=t' % (op, rhs), 'state t',
+                    rhs = 'rhs=%s' % rng.choice(names[1:] + ['a', 'SELF'])
+                # (SELF: the map combined with itself)
+                h += ['nvalid x', 'bop x op=%s %s inplace=1' % (op, rhs.replace('SELF', 'x')), 'nvalid x',
+                      'bop y op=%s %s r=t' % (op, rhs.replace('SELF', 'y')), 'state t',
                       rng.choice(['copy t r=y', 'bop t op=or const=F r=y'])]
             h += ['state x', 'state y', 'vals x', 'vals y', 'covmask x', 'covmask y', 'valid x', 'info x', 'info y']
             for nm in names:
